@@ -760,6 +760,7 @@ func FromV3(doc3 *openapi3.T) (*openapi2.T, error) {
 		} else if len(bodyOrRefParameters) != 0 {
 			for _, param := range bodyOrRefParameters {
 				doc2.Parameters[name] = param
+				break // a single body parameter: the first conversion (later ones see the schema after x-nullable was moved out of it)
 			}
 		}
 
